@@ -14,25 +14,28 @@ from .engines_common import Result
 FN = {1: "memset_s", 2: "memzero_s", 3: "memset16_s", 4: "memset32_s", 5: "memzero16_s", 6: "memzero32_s", 7: "strzero_s"}
 WIDTH = {1: 1, 2: 1, 3: 2, 4: 4, 5: 2, 6: 4, 7: 1}
 VALUE = {1: 0xA5, 2: 0, 3: 0xA5C3, 4: 0x65C3E1D2, 5: 0, 6: 0, 7: 0}
+# the fill values tried: the optimiser treats a zero fill differently from other values (a zeroing memset / store is the common idiom)
+VALUES = {1: [0xA5, 0], 2: [0], 3: [0xA5C3, 0], 4: [0x65C3E1D2, 0], 5: [0], 6: [0], 7: [0]}
 STO = {"stack": 0, "heap": 1, "static": 2, "local": 3}
 HD = os.path.join(build.VERIF, "harness", "erase")
 
 
-def client_path(root, lv, lk, fn, sto, cp, n, off):
+def client_path(root, lv, lk, fn, sto, cp, n, off, v=None):
     d = os.path.join(root, "erase-" + build.harness_hash())
     os.makedirs(d, exist_ok=True)
-    return os.path.join(d, "c_%s_%s_%d_%s_%s" % (lv, lk, fn, sto, ("c%d_%d" % (n, off)) if cp else "rt"))
+    return os.path.join(d, "c_%s_%s_%d_%s_%s" % (lv, lk, fn, sto, ("c%d_%d_%d" % (n, off, VALUE[fn] if v is None else v)) if cp else "rt"))
 
 
-def build_client(b, root, lv, lk, fn, sto, cp, n, off):
-    exe = client_path(root, lv, lk, fn, sto, cp, n, off)
+def build_client(b, root, lv, lk, fn, sto, cp, n, off, v=None):
+    v = VALUE[fn] if v is None else v
+    exe = client_path(root, lv, lk, fn, sto, cp, n, off, v)
     if os.path.exists(exe):
         return exe
     d = os.path.dirname(exe)
     obs = os.path.join(d, "observer.o")
     flags = ["-" + lv, "-w", "-DFN=%d" % fn, "-DSTORAGE=%d" % STO[sto]] + build._includes()
     if cp:
-        flags += ["-DCONSTP", "-DCN=%d" % n, "-DCOFF=%d" % off, "-DCV=%d" % VALUE[fn]]
+        flags += ["-DCONSTP", "-DCN=%d" % n, "-DCOFF=%d" % off, "-DCV=%d" % v]
     if lk == "clto":       # clang, link-time optimisation over LLVM bitcode
         cmd = ["clang", "-flto"] + flags + [os.path.join(HD, "client.c"), obs, b["clto_" + lv], "-Wl,--wrap=free", "-lm", "-o", exe + ".tmp%d" % os.getpid()]
     elif lk == "cstatic":  # clang-compiled caller, the library as shipped
@@ -87,11 +90,10 @@ def run(prop, tier, seed, workdir):
         if s["constp"]:
             if (s["n"], s["off"]) not in const_cells:
                 continue
-            key = key + (s["n"], s["off"])
-        else:
-            key = key + (0, 0)
-        cells[key] = None
-        runs.append((key, s["n"], s["off"], VALUE[s["fn"]]))
+        for v in VALUES[s["fn"]]:
+            k2 = key + ((s["n"], s["off"], v) if s["constp"] else (0, 0, VALUE[s["fn"]]))
+            cells[k2] = None
+            runs.append((k2, s["n"], s["off"], v))
 
     def mk(key):
         return key, build_client(b, root, *key)
